@@ -784,6 +784,20 @@ impl<'a> Ev<'a> {
                 _ => None,
             },
             "map_err" | "ok_or_else" | "ok_or" | "ok" => rty.clone(),
+            "map" | "filter_map" | "flat_map" => {
+                // element type from the closure body
+                let bt = args.first().and_then(|a| a.get("body")).and_then(ty_of);
+                let is_iter = rty.as_ref().map(|t| t.starts_with("Iter<") || t.starts_with("Vec<") || t.starts_with('[')).unwrap_or(false);
+                match (bt, name.as_str(), is_iter) {
+                    (Some(b), "map", true) => Some(format!("Iter<{}>", b)),
+                    (Some(b), "filter_map", true) | (Some(b), "flat_map", true) => Some(format!("Iter<{}>", elem_of(&b).unwrap_or(b))),
+                    (Some(b), "map", false) => rty.as_ref().map(|t| {
+                        let (base, _) = split_generic(t);
+                        if base == "Option" { format!("Option<{}>", b) } else { t.clone() }
+                    }),
+                    _ => None,
+                }
+            }
             _ => rty.as_ref().and_then(|t| self.idx.method_ret(t, &name)).map(|r| if r == "Self" { rty.clone().unwrap_or(r) } else { r }),
         };
         let ty = match ty {
